@@ -27,6 +27,7 @@ class IrqMonitor:
                       "sw_irq": 0, "wakes": 0}
         self.injected_isr = 0
         self.flag_drop = None               # where the model's private "pending" flag last went True -> False
+        self.on_press_unarmed = False       # an ON-key press since then left that flag down
 
     # ------------------------------------------------------------------------------------------
     def _v(self, clause, **detail):
@@ -41,9 +42,14 @@ class IrqMonitor:
         self.prev = rec
         if a is None:
             return
+        if b.get("pending"):
+            self.on_press_unarmed = False
         if kind == "obs":
             if a.get("pending") and not b.get("pending"):
                 self.flag_drop = "event:" + (str(injected[0]) if injected else "?")
+            if injected and injected[0] == "on" and injected[1] and not b.get("pending") and (b["isr"] & 8):
+                # the ON key went down, its status bit is up, but the model's private "pending" flag was not raised
+                self.on_press_unarmed = True
             # an injected event must not execute anything
             if b["pc"] != a["pc"] or b["S"] != a["S"]:
                 self._v("event_injection_moved_cpu", a_pc=a["pc"], b_pc=b["pc"])
@@ -120,7 +126,7 @@ class IrqMonitor:
             isr_at = b["isr"]
             if not (p_imr & 0x80):
                 self._v("entered_with_master_enable_clear", pushed_imr=p_imr, isr=isr_at, pc=a["pc"])
-            if not (p_imr & isr_at & 0x0F):
+            if not (p_imr & isr_at & 0x7F):      # any of the seven sources (bits 4-6: serial/external, host-raised only)
                 self._v("entered_without_enabled_pending_source", pushed_imr=p_imr, isr=isr_at, pc=a["pc"])
             f_at = mid["f"] if reti_then_entry else b["f"]
             if (p_f & 3) != f_at:
@@ -165,7 +171,7 @@ class IrqMonitor:
             if self.eligible_run >= K_PROGRESS:
                 self._v("pending_unmasked_request_not_delivered", imr=b["imr"], isr=b["isr"], pc=b["pc"],
                         boundaries=self.eligible_run + 1, model_pending_flag=b.get("pending"),
-                        flag_dropped_at=self.flag_drop)
+                        flag_dropped_at=self.flag_drop, on_press_did_not_arm=self.on_press_unarmed)
                 self.eligible_run = 0
         elif not self.eligible(b):
             self.eligible_run = 0
